@@ -1,6 +1,7 @@
 package compiler
 
 import (
+	"fmt"
 	"strings"
 
 	"github.com/kyleconroy/sqlc/internal/sql/ast"
@@ -14,18 +15,19 @@ func isArray(n *ast.TypeName) bool {
 	return len(n.ArrayBounds.Items) > 0
 }
 
-func toColumn(n *ast.TypeName) *Column {
+func toColumn(n *ast.TypeName) (*Column, error) {
 	if n == nil {
-		panic("can't build column for nil type name")
+		return nil, fmt.Errorf("can't build column for nil type name")
 	}
 	typ, err := ParseTypeName(n)
 	if err != nil {
-		panic("toColumn: " + err.Error())
+		// e.g. a type name with more than three parts: CAST(x AS a.b.c.d)
+		return nil, fmt.Errorf("invalid type name: %w", err)
 	}
 	return &Column{
 		Type:     typ,
 		DataType: strings.TrimPrefix(astutils.Join(n.Names, "."), "."),
 		NotNull:  true, // XXX: How do we know if this should be null?
 		IsArray:  isArray(n),
-	}
+	}, nil
 }
